@@ -514,3 +514,42 @@ def r_class_lmi_symmetric(ctx):
             ctx.sample({"rule": "R-LMIDUAL", "family": c.name, "entry": str(em.entry), "symmetrised": em.symmetrised})
     ctx.count("class LMI builders", n)
     return n
+
+
+# ---------------------------------------------------------------------------------------------------
+# R-REGEN: the conditions are regenerated from the current samples at every solve, for every leaf function
+# ---------------------------------------------------------------------------------------------------
+def r_regen(ctx):
+    from .. import flow
+    from . import common
+    repo = ctx.repo
+    base = repo.cls("Function")
+    root = common.solve_root(repo)
+    calls = [c for c in ast.walk(root) if isinstance(c, ast.Call) and isinstance(c.func, ast.Attribute) and c.func.attr in ("set_class_constraints", K.HOOK)]
+    ok = False
+    msg = "the solve root does not regenerate the class constraints of the leaf functions"
+    regen = None
+    if len(calls) == 1:
+        st = common.stmt_of(calls[0])
+        lp = flow.in_loop(st)
+        if lp is not None and not flow.conditions_guarding(st) and isinstance(lp.target, ast.Name) and dotted(calls[0].func.value) == lp.target.id:
+            ok, msg = True, "every leaf function regenerates its class constraints at every solve"
+            regen = base.find_method(calls[0].func.attr)
+    ctx.ob("R-REGEN", "PEP.%s::regenerate for every leaf function" % root.name, ok, msg, loc(root, calls[0] if calls else root))
+    if regen is None or regen.name == K.HOOK:
+        return
+    ctx.unit(qualname_of(regen))
+    def is_hook_call(n):
+        return isinstance(n, ast.Call) and call_name(n) == K.HOOK and dotted(n.func.value) == "self"
+    pc = flow.path_counts(regen.body, is_hook_call)
+    normal = pc.get("next", set()) | pc.get("return", set())
+    okh = normal == {1}
+    ctx.ob("R-REGEN", "Function.%s::hook called unconditionally" % regen.name, okh,
+           "the class-constraint hook runs exactly once per regeneration, on every path" if okh else
+           "the hook runs %s times depending on the path (e.g. a cache keyed on the function's own sample count): conditions that depend on other state "
+           "(samples of a coupled function, a new stationary sample) go stale" % sorted(normal), loc(regen, regen))
+
+
+def qualname_of(fn):
+    c = getattr(fn, "_cls", None)
+    return (c.name + "." if c else "") + fn.name
